@@ -304,6 +304,20 @@ Definition insert (pr : params) (ix : index) (id : N) (v : vec) (level : nat) : 
       Ok {| i_env := e4; i_ep := ep'; i_maxl := ml'; i_n := n' |}
   end.
 
+(* HnswIndex::search without the cut at k: all candidates of the base-layer search as
+   (id, d2) pairs, nearest first.  The environment changes only in its cache. *)
+Definition search_all (pr : params) (ix : index) (q : vec) : res (index * list (N * N)) :=
+  match i_ep ix with
+  | None => Ok (ix, [])
+  | Some entry =>
+      let fuel := fuel_of ix in
+      let* (e1, v0) := get_vector (i_env ix) entry in
+      let* (e2, cur, _) := greedy_down fuel e1 q (layers_down 1 (i_maxl ix)) entry (dist2 q v0) in
+      let* (e3, found) := search_layer fuel e2 q [cur] (p_efs pr) 0 in
+      Ok ({| i_env := e3; i_ep := i_ep ix; i_maxl := i_maxl ix; i_n := i_n ix |},
+          map (fun x : di => (snd x, fst x)) found)
+  end.
+
 (* HnswIndex::search: (id, d2) pairs.  The environment changes only in its cache. *)
 Definition search (pr : params) (ix : index) (q : vec) (k : nat) : res (index * list (N * N)) :=
   match i_ep ix with
@@ -316,6 +330,15 @@ Definition search (pr : params) (ix : index) (q : vec) (k : nat) : res (index * 
       Ok ({| i_env := e3; i_ep := i_ep ix; i_maxl := i_maxl ix; i_n := i_n ix |},
           map (fun x : di => (snd x, fst x)) (firstn k found))
   end.
+
+(* GraphEngine::search_vector: nothing for k = 0; otherwise all candidates of the index search
+   (HnswIndex::search with k = usize::MAX), the deleted nodes `del` left out, the first k. *)
+Definition live_of (del : list N) (r : list (N * N)) : list (N * N) :=
+  filter (fun x => negb (memN (fst x) del)) r.
+Definition search_vector (pr : params) (ix : index) (del : list N) (q : vec) (k : nat)
+  : res (index * list (N * N)) :=
+  if k =? 0 then Ok (ix, [])
+  else let* (ix', r) := search_all pr ix q in Ok (ix', firstn k (live_of del r)).
 
 (* close + GraphEngine::open: the catalog holds the current roots of both trees
    (persisted by insert_vector), the cache starts empty, entry point and max layer
